@@ -136,6 +136,23 @@ pub fn check_seed<V: Fv>(seed: [u8; 32], nmsgs: usize, vseed: u64, rep: &mut Rep
         }
         rep.count("signatures_roundtripped", 1);
     }
+    // the same round trips AFTER the objects have been used (pk in verify, sk2 in sign): the
+    // property's equality is the crate's own `==`; state attached to an object by its use (a
+    // lazily filled cache, a counter) must not make it differ from a freshly decoded copy
+    let again = monitored(|| (V::sk_from_bytes(&V::sk_to_bytes(&sk2)), V::pk_from_bytes(&V::pk_to_bytes(&pk)), V::sk_to_bytes(&sk2) == skb, V::pk_to_bytes(&pk) == pkb));
+    match again {
+        Ok((Ok(sk3), Ok(pk3), sb_same, pb_same)) => {
+            if !(sk3 == sk2) || !(sk2 == sk3) || !(sk3 == sk) || !sb_same {
+                rep.violation("sk:roundtrip-differs-after-use", format!("{}: a secret key that has signed no longer equals its own decoded encoding (or encodes differently)", V::NAME), replay());
+            }
+            if !(pk3 == pk) || !(pk == pk3) || !(pk2 == pk) || !(pk == pk2) || !pb_same {
+                rep.violation("pk:roundtrip-differs-after-use", format!("{}: a public key that has verified a signature no longer equals its own decoded encoding / a decoded copy that has not been used (or encodes differently)", V::NAME), replay());
+            }
+            rep.count("roundtrips_after_use", 1);
+        }
+        Ok(_) => rep.violation("key:own-encoding-rejected-after-use", format!("{} from_bytes(to_bytes(key)) failed after the key was used", V::NAME), replay()),
+        Err(p) => rep.violation(&format!("panic:from_bytes@{}", short_loc(&p.location)), p.message.clone(), replay()),
+    }
 }
 
 pub fn roundtrip(ctx: &Ctx, rep: &mut Report) {
@@ -181,6 +198,7 @@ pub fn roundtrip(ctx: &Ctx, rep: &mut Report) {
     rep.require("regression_seeds", 7);
     rep.require("keys_roundtripped", 50);
     rep.require("signatures_roundtripped", 200);
+    rep.require("roundtrips_after_use", 50);
 }
 
 /// x^j * a in Z[X]/(X^n+1)
